@@ -496,6 +496,36 @@ pub fn type_pair_family(k: usize, tier: Tier) -> Vec<String> {
             }
         }
     }
+    // Closed arithmetic and comparisons *inside types*: every operator on every pair of small literals
+    // (equal, unequal, negative, and one operand that still has to be computed), as the condition of a
+    // conditional type that an annotation has to match, and as the index of an opaque type family that
+    // is compared with the literal result and with its neighbour. Each program is well typed for exactly
+    // one of the two candidates, so a rule of the normaliser that folds an operator wrongly is seen both
+    // as a program that must be accepted and as a program that must not.
+    let lits = ["0", "1", "2", "(0 - 1)", "(1 + 1)"];
+    for op in ["+", "-", "*", "/", "<", "<=", "==", ">", ">="] {
+        for a in lits {
+            for b in lits {
+                if ["<", "<=", "==", ">", ">="].contains(&op) {
+                    for v in ["1", "true"] {
+                        out.push(format!("xx : (if {a} {op} {b} then int else bool) = {v}; xx"));
+                    }
+                    for r in ["true", "false"] {
+                        out.push(format!("(pp : bool -> type) => (uu : pp ({a} {op} {b})) => (kk : pp {r} -> int) => kk uu"));
+                    }
+                } else {
+                    for r in ["(0 - 2)", "(0 - 1)", "0", "1", "2", "3", "4"] {
+                        out.push(format!("(pp : int -> type) => (uu : pp ({a} {op} {b})) => (kk : pp {r} -> int) => kk uu"));
+                    }
+                }
+            }
+        }
+    }
+    for a in lits {
+        for r in ["(0 - 2)", "(0 - 1)", "0", "1", "2"] {
+            out.push(format!("(pp : int -> type) => (uu : pp (-{a})) => (kk : pp {r} -> int) => kk uu"));
+        }
+    }
     out
 }
 
